@@ -22,6 +22,8 @@ import MajoranaVerif.Proofs.Mvp60
 import MajoranaVerif.Proofs.Mvp60Witness
 import MajoranaVerif.Proofs.Mvp61
 import MajoranaVerif.Proofs.Mvp61Witness2
+import MajoranaVerif.Proofs.Mvp62
+import MajoranaVerif.Proofs.Mvp62Witness
 open GoInt Model.Seq Proofs.Seq
 
 namespace Props.C12
@@ -751,5 +753,67 @@ theorem mvp61_error_in_flush_reported :
   obtain ⟨b, _⟩ := Proofs.Mvp61Witness.obs_eq Proofs.Mvp61Witness.zero_p2
   obtain ⟨c, _, _, e, _⟩ := Proofs.Mvp61Witness.obs_eq Proofs.Mvp61Witness.zero_p3
   exact ⟨a, b, c, e⟩
+
+end Props.C12
+
+/-! ## MVP-6.2 (package M62): lower bound, and the transaction map's behaviours as theorems
+
+`Model.Mvp62` is the cycle-accurate model of `proc/mvp6-2` — `Model.Mvp61` with the configuration flag `v62` set: results
+go to the transaction map, a resolved conditional branch commits or rolls back (`Model.Mvp61.condCtx`), the run ends with
+a commit.  Tied to the Go machine like `Model.Mvp61` (fields `m62pK` of the driver). -/
+namespace Props.C12
+
+/-- **C12 lower bound, MVP-6.2**: at most `eu` instructions executed per tick; the cycle counter is at least
+`executed / eu`.  For every run. -/
+theorem mvp62_lower_bound (app : App) (ctx : Model.Context) (eu wu fuel : Nat) :
+    (Model.Mvp62.run app ctx eu wu fuel).final.executed ≤ eu * (Model.Mvp62.run app ctx eu wu fuel).ticks ∧
+    ((Model.Mvp62.run app ctx eu wu fuel).final.executed : Int) ≤ eu * (Model.Mvp62.run app ctx eu wu fuel).final.cycles :=
+  Proofs.Mvp62.run_executed_le app ctx eu wu fuel
+
+/-- Non-vacuity: the three-unit run of `Proofs.Mvp62Witness.txApp` executes 4 instructions in 937 cycles -/
+example : (Model.Mvp62.run Proofs.Mvp62Witness.txApp (Proofs.Mvp61Witness.ctx0 128) 3 3 1000).final.cycles = 937 ∧
+    (Model.Mvp62.run Proofs.Mvp62Witness.txApp (Proofs.Mvp61Witness.ctx0 128) 3 3 1000).final.executed = 4 := by
+  obtain ⟨_, a, _, b, _⟩ := Proofs.Mvp61Witness.obs_eq Proofs.Mvp62Witness.tx_p3
+  exact ⟨a, b⟩
+
+/-- **KF-ooo-txmap as a theorem on the tied model.**  `ori a7, s3, 1; lw t4, 12(s1); bnez t4, l2; addi a7, zero, 8; l2:`
+(memory all `0x11`: the branch is taken): the unpipelined machine and MVP-6.2 with two units leave `a7 = 1`; MVP-6.2 with
+THREE units ends normally with four instructions executed and `a7 = 0` — the wrong-path `addi` replaced the `ori`'s
+uncommitted entry in the transaction map (one entry per register) and the rollback dropped it.  MVP-6.1 with three units
+leaves `a7 = 8` on the same program (it commits the shadow). -/
+theorem mvp62_txmap_loses_write :
+    (Model.Seq.runMvp1 Proofs.Mvp62Witness.txApp ⟨Proofs.Mvp61Witness.ctx0 128, 0⟩ 10).final.ctx.Registers.get1 17 = 1#32 ∧
+    (Model.Mvp62.run Proofs.Mvp62Witness.txApp (Proofs.Mvp61Witness.ctx0 128) 2 2 1000).final.ctx.Registers.get1 17 = 1#32 ∧
+    (Model.Mvp62.run Proofs.Mvp62Witness.txApp (Proofs.Mvp61Witness.ctx0 128) 3 3 1000).halt = some .offEnd ∧
+    (Model.Mvp62.run Proofs.Mvp62Witness.txApp (Proofs.Mvp61Witness.ctx0 128) 3 3 1000).final.executed = 4 ∧
+    (Model.Mvp62.run Proofs.Mvp62Witness.txApp (Proofs.Mvp61Witness.ctx0 128) 3 3 1000).final.ctx.Registers.get1 17 = 0#32 ∧
+    (Model.Mvp61.run Proofs.Mvp62Witness.txApp (Proofs.Mvp61Witness.ctx0 128) 3 3 1000).final.ctx.Registers.get1 17 = 8#32 := by
+  obtain ⟨_, a, _⟩ := Proofs.Mvp61Witness.obsSeq_eq Proofs.Mvp62Witness.tx_seq
+  obtain ⟨_, _, _, _, _, b, _⟩ := Proofs.Mvp61Witness.obs_eq Proofs.Mvp62Witness.tx_p2
+  obtain ⟨c, _, _, d, _, e, _⟩ := Proofs.Mvp61Witness.obs_eq Proofs.Mvp62Witness.tx_p3
+  obtain ⟨_, _, _, _, _, f, _⟩ := Proofs.Mvp61Witness.obs_eq Proofs.Mvp62Witness.tx61_p3
+  exact ⟨a, b, c, d, e, f⟩
+
+/-- **MVP-6.2 rolls back the shadow of a slow branch** (the documented fix of KF-ooo-shadow): on the witness of
+`mvp61_commits_shadow` MVP-6.2 with three units executes the same three instructions and ends with `a4 = 0`, as the
+unpipelined machine does. -/
+theorem mvp62_rolls_back_shadow :
+    (Model.Mvp62.run Proofs.Mvp61Witness.shadowApp (Proofs.Mvp61Witness.ctx0 128) 3 3 1000).halt = some .offEnd ∧
+    (Model.Mvp62.run Proofs.Mvp61Witness.shadowApp (Proofs.Mvp61Witness.ctx0 128) 3 3 1000).final.executed = 3 ∧
+    (Model.Mvp62.run Proofs.Mvp61Witness.shadowApp (Proofs.Mvp61Witness.ctx0 128) 3 3 1000).final.ctx.Registers.get1 30 = 0x11111111#32 ∧
+    (Model.Mvp62.run Proofs.Mvp61Witness.shadowApp (Proofs.Mvp61Witness.ctx0 128) 3 3 1000).final.ctx.Registers.get1 14 = 0#32 := by
+  obtain ⟨a, _, _, b, _, c, d, _⟩ := Proofs.Mvp61Witness.obs_eq Proofs.Mvp62Witness.shadow62_p3
+  exact ⟨a, b, d, c⟩
+
+/-- **KF-ooo-2branch on its pinned variant**: the loop of `Proofs.Mvp61Witness.twoApp` (four rounds, `s10 = 0` on the
+unpipelined machine) ends after two rounds on MVP-6.2 with two units: normal end, 12 instructions executed, `s10 = 2`. -/
+theorem mvp62_second_branch_wins :
+    (Model.Seq.runMvp1 Proofs.Mvp61Witness.twoApp ⟨Proofs.Mvp61Witness.ctx0 256, 0⟩ 100).final.ctx.Registers.get1 26 = 0#32 ∧
+    (Model.Mvp62.run Proofs.Mvp61Witness.twoApp (Proofs.Mvp61Witness.ctx0 256) 2 2 1500).halt = some .offEnd ∧
+    (Model.Mvp62.run Proofs.Mvp61Witness.twoApp (Proofs.Mvp61Witness.ctx0 256) 2 2 1500).final.executed = 12 ∧
+    (Model.Mvp62.run Proofs.Mvp61Witness.twoApp (Proofs.Mvp61Witness.ctx0 256) 2 2 1500).final.ctx.Registers.get1 26 = 2#32 := by
+  obtain ⟨_, a, _⟩ := Proofs.Mvp61Witness.obsSeq_eq Proofs.Mvp61Witness.two_seq
+  obtain ⟨c, _, _, d, _, e, _⟩ := Proofs.Mvp61Witness.obs_eq Proofs.Mvp62Witness.two62_p2
+  exact ⟨a, c, d, e⟩
 
 end Props.C12
